@@ -642,8 +642,8 @@ def _(c):
             return o.fields["_PointJacobi__precompute"] is _table0
         return table_ok(ex, G, o.fields["_PointJacobi__precompute"], o.fields["_PointJacobi__order"])
     c.ensures(post_table, "table-of-the-view")
-    c.ensures(lambda self, _coords0, _fields0: coords_of(self) is _coords0 and all(self.fields[k] is _fields0[k] for k in _fields0 if k != "_PointJacobi__precompute"),
-              "frame-only-the-table")
+    c.ensures(lambda self, _coords0, _fields0: (coords_of(self) is _coords0 or "_PointJacobi__coords" in self.ghost.get("env_written", ())) and
+              all(self.fields[k] is _fields0[k] for k in _fields0 if k not in ("_PointJacobi__precompute", "_PointJacobi__coords")), "frame-only-the-table")
     c.ensures(lambda self, _table0: (self.fields["_PointJacobi__precompute"] is _table0) if isinstance(_table0, SIntList) else True, "published-table-never-replaced")
 
     def g_apply(ex, G, vals, line):
@@ -875,7 +875,8 @@ def _snap(env_key):
 REGISTRY[PJ + "__mul__"].setup = _snap(["self"])
 REGISTRY[PJ + "__mul__"].ensures(lambda ex, self, _f0_self: operand_kept(ex, self, _f0_self, 1, 0), "frame-operand-keeps-its-value")
 REGISTRY[PJ + "_mul_precompute"].setup = _snap(["self"])
-REGISTRY[PJ + "_mul_precompute"].ensures(lambda ex, self, _f0_self: And_(operand_kept(ex, self, _f0_self, 1, 0), coords_of(self) is _f0_self["_PointJacobi__coords"]), "frame-nothing-written")
+REGISTRY[PJ + "_mul_precompute"].ensures(lambda ex, self, _f0_self: And_(operand_kept(ex, self, _f0_self, 1, 0), coords_of(self) is _f0_self["_PointJacobi__coords"] or
+                                                                           "_PointJacobi__coords" in self.ghost.get("env_written", ())), "frame-nothing-written")
 REGISTRY[PJ + "mul_add"].setup = _snap(["self", "other"])
 
 
